@@ -14,6 +14,13 @@ CHECKS = {
  'C02': ('exploration', 'Hypothesis metamorphic (witness swap) + differential vs reference dSHA256 of reference encodings; mutable/immutable pairing',
          'For each generated transaction all witness variants must share the reference txid while wtxid follows the full encoding; blocks hash '
          'their 80-byte header whatever they carry; immutable/mutable pairs agree on ids, ==, != and hash().', TRUST),
+ 'C03': ('exploration', 'Hypothesis-generated (tx, subscript, index) triples x exhaustive enumeration of all 256 hash-type bytes, differential vs reference consensus digest',
+         'Every generated triple is evaluated under all 256 hash types against an independent transcription of the original signature-hash '
+         'algorithm (digest, error indication, ValueError contract) and the transaction must be left untouched; the class histogram must '
+         'cover every base type x ANYONECANPAY x outcome cell.', TRUST),
+ 'C04': ('exploration', 'Hypothesis-generated cases over the full unsigned field range x all 256 hash types, differential vs reference BIP143 digest',
+         'Digest equality with a reference written from the BIP143 text (validated on the BIP worked examples) for lock times / sequences up to '
+         '2^32-1, amounts to 2^63-1, script codes across the 253-byte and 65,536-byte CompactSize boundaries.', TRUST),
  'C15': ('exploration', 'enumeration of every transaction count + Hypothesis witness/duplicate variants vs recursive reference merkle and weight formula',
          'Every n in 1..70 (1..300 thorough, powers of two +-1 to 1025) with generated witness subsets and duplicates is compared with a recursive '
          'textbook merkle definition over reference txids/wtxids; wrong declared roots must be refused; weights equal 3*stripped+full.', TRUST),
